@@ -20,7 +20,7 @@ def main():
         d = f"{ROOT}/seeded/{sid}"
         demo = open(d + "/demo.rs").read()
         head = "\n".join(demo.split("\n")[:6])
-        m = re.search(r"(?i)place at:?\s+(\S+?\.rs)", head)
+        m = re.search(r"(?i)place(?: this file)? at:?\s+(\S+?\.rs)", head)
         if m:
             place = m.group(1)
         else:
